@@ -1,16 +1,19 @@
 ----------------------------- MODULE MC_RuleCases -----------------------------
-(* Enumerates the cases of RuleCases.tla for one group (environment GROUP = c01 | c06 | c16 | c17). *)
-EXTENDS RuleCases, Json, IOUtils
+(* Enumerates the cases of RuleCases.tla (hand-listed contexts x redexes) and of RuleProducts.tla (generated *)
+(* operand-order families) for one group (environment GROUP = c01 | c06 | c16 | c17, TIER = quick | thorough). *)
+EXTENDS RuleProducts, Json, IOUtils
 Group == IF "GROUP" \in DOMAIN IOEnv THEN IOEnv.GROUP ELSE "c01"
+Tier == IF "TIER" \in DOMAIN IOEnv THEN IOEnv.TIER ELSE "quick"
 Stmts == CASE Group = "c01" -> C01Stmts [] Group = "c06" -> C06Stmts [] Group = "c16" -> C16Stmts [] Group = "c17" -> C17Stmts [] OTHER -> <<>>
 Exprs == IF Group = "c01" THEN C01Exprs ELSE <<>>
-VARIABLES kind, ci, ei
+\* kind = "stmt" / "expr": hand-listed; kind = "fam": a seed state per family whose successors are its members (kind "prod")
+VARIABLES kind, ci, ei, body, fam
 Init ==
-  \/ kind = "stmt" /\ ci = 0 /\ ei \in 1..Len(Stmts)
-  \/ kind = "expr" /\ ci \in 1..Len(ExprContexts) /\ ei \in 1..Len(Exprs)
-Next == UNCHANGED <<kind, ci, ei>>
-Src == IF kind = "stmt" THEN Wrap(Stmts[ei]) ELSE ExprCase(ExprContexts[ci], Exprs[ei])
-Emit == PrintT("CASE " \o ToJson([group |-> Group, kind |-> kind, ctx |-> ci, redex |-> ei,
-                                   body |-> IF kind = "stmt" THEN Stmts[ei] ELSE ExprContexts[ci][1] \o Exprs[ei] \o ExprContexts[ci][2],
-                                   src |-> Src]))
+  \/ kind = "stmt" /\ ci = 0 /\ ei \in 1..Len(Stmts) /\ body = "" /\ fam = ""
+  \/ kind = "expr" /\ ci \in 1..Len(ExprContexts) /\ ei \in 1..Len(Exprs) /\ body = "" /\ fam = ""
+  \/ kind = "fam" /\ ci = 0 /\ ei = 0 /\ body = "" /\ fam \in FamiliesOf(Group)
+Next == kind = "fam" /\ kind' = "prod" /\ body' \in Family(fam, Tier) /\ UNCHANGED <<ci, ei, fam>>
+Body == IF kind = "stmt" THEN Stmts[ei] ELSE IF kind = "expr" THEN ExprContexts[ci][1] \o Exprs[ei] \o ExprContexts[ci][2] ELSE body
+Emit == kind = "fam" \/ PrintT("CASE " \o ToJson([group |-> Group, kind |-> (IF kind = "prod" THEN "stmt" ELSE kind), ctx |-> ci, redex |-> ei, fam |-> fam,
+                                   body |-> Body, src |-> Wrap(Body)]))
 =============================================================================
